@@ -306,17 +306,20 @@ func (vc *FuncVC) applyContract(st *State, reach Term, ins *ssa.Call, callee *ss
 	}
 	if tup, ok := rt.(*types.Tuple); ok {
 		for i := 0; i < tup.Len(); i++ {
-			post[fmt.Sprintf("result%d", i)] = vc.toSVal(res.Elems[i], tup.At(i).Type())
+			post[fmt.Sprintf("ret%d", i)] = vc.toSVal(res.Elems[i], tup.At(i).Type())
 		}
 		if tup.Len() > 0 {
-			post["result"] = post["result0"]
+			post["ret"] = post["ret0"]
 		}
 	} else {
-		post["result"] = vc.toSVal(res, rt)
-		post["result0"] = post["result"]
+		post["ret"] = vc.toSVal(res, rt)
+		post["ret0"] = post["ret"]
+	}
+	if _, clash := post["result"]; !clash {
+		post["result"] = post["ret"]
 	}
 	if fc.Fresh {
-		r := post["result"]
+		r := post["ret"]
 		sz := int64(1)
 		if r.Ty.K == KRef && r.Ty.Elem != nil {
 			sz = vc.L.sizeOf(r.Ty.Elem)
@@ -337,9 +340,12 @@ func (vc *FuncVC) execReturn(st *State, reach Term, ins *ssa.Return) {
 	for i, r := range ins.Results {
 		v := vc.val(r)
 		sv := vc.toSVal(v, r.Type())
-		vars[fmt.Sprintf("result%d", i)] = sv
+		vars[fmt.Sprintf("ret%d", i)] = sv
 		if i == 0 {
-			vars["result"] = sv
+			vars["ret"] = sv
+			if _, clash := vc.params["result"]; !clash {
+				vars["result"] = sv
+			}
 		}
 	}
 	env := vc.env(st, vars)
@@ -353,7 +359,7 @@ func (vc *FuncVC) execReturn(st *State, reach Term, ins *ssa.Return) {
 		vc.oblige("R", fmt.Sprintf("post/%s/ret%d", label, k), reach, t, clauseTags(en, tags), ins.Pos(), en.Src)
 	}
 	if vc.fc.Fresh && len(ins.Results) > 0 {
-		r := vars["result"]
+		r := vars["ret"]
 		vc.oblige("F", fmt.Sprintf("fresh/ret%d", k), reach, Ge(r.T, vc.entry.cnt), vc.propTags("C06"), ins.Pos(), "result is freshly allocated")
 	}
 	if vc.fc.HasAssigns {
